@@ -614,9 +614,9 @@ open Lean Elab Tactic Meta in
     (with `hX : call = X`) -/
 elab "gen_pkd_call" : tactic => withMainContext do
   let g ← getMainGoal
-  let tgt ← instantiateMVars (← g.getType)
-  unless tgt.isAppOfArity ``Sim 2 do throwError "not a Sim goal"
-  let lhs := tgt.appFn!.appArg!
+  let tgt := (← instantiateMVars (← g.getType)).consumeMData
+  unless tgt.isAppOfArity ``Sim 2 do throwError "not a Sim goal: {tgt}"
+  let lhs := tgt.appFn!.appArg!.consumeMData
   let some app ← Lean.Meta.matchMatcherApp? lhs | throwError "the left-hand side is not a match"
   let isCall (e : Expr) : Bool :=
     (e.isAppOfArity ``apiUpdate 6 || e.isAppOfArity ``apiUpdateRanges 5) && !e.hasLooseBVars &&
